@@ -109,7 +109,8 @@ def fp_nonames(f):
     return dict(props=props, rest=json.dumps(d, sort_keys=True, default=str))
 
 
-def read_fields(fn):
+def read_fields(fn, mark=None):
+    """`mark(f)`: optional extra flag per construct read (stored as 'eq')."""
     C = cfdm()
     out = []
     fs = C.read(fn)
@@ -128,7 +129,13 @@ def read_fields(fn):
             # e.g. a 0-d char variable read as a field (its data cannot be fetched in this environment)
             full = f"unfingerprintable:{f.nc_get_variable(None)}:{type(e).__name__}"
             nn = dict(props=[], rest=full)
-        out.append(dict(full=full, nn=nn, ga=ga, ncvar=f.nc_get_variable(None), kind=type(f).__name__))
+        rec = dict(full=full, nn=nn, ga=ga, ncvar=f.nc_get_variable(None), kind=type(f).__name__)
+        if mark is not None:
+            try:
+                rec["eq"] = bool(mark(f))
+            except Exception:
+                rec["eq"] = False
+        out.append(rec)
     return out
 
 
@@ -145,7 +152,8 @@ def _features(f):
     strs = any(c.get_data(None) is not None and c.data.dtype.kind in "SUO"
                for c in f.constructs.filter_by_data(todict=True).values())
     bases = [str(c.nc_get_variable(None) or c.get_property("standard_name", "")) for c in f.constructs.filter_by_data(todict=True).values()]
-    return dict(bases=bases, groups=list(f.nc_variable_groups()), ft_global="featureType" in ga, ft=ft, kind=type(f).__name__,
+    ext = [c.nc_get_variable(None) for c in f.cell_measures(todict=True).values() if c.nc_get_external()] if hasattr(f, "cell_measures") else []
+    return dict(ext=ext, bases=bases, groups=list(f.nc_variable_groups()), ft_global="featureType" in ga, ft=ft, kind=type(f).__name__,
                 domain_ancillaries=has_da, formula_terms=has_ft_ref, strings=bool(strs),
                 props={k: json.dumps(FP._pval(v), default=str) for k, v in f.properties().items()},
                 ga={k: (None if v is None else json.dumps(FP._pval(v), default=str)) for k, v in ga.items()})
@@ -172,11 +180,15 @@ def _scenario(spec, d, emit):
     emit(("e", dict(e="ok", s0=[_features(f) for f in batches[0]])))
     for bi, batch in enumerate(batches[1:], 1):
         step = dict(n=len(batch), feats=[_features(f) for f in batch])
+
+        def ext_kw(tag, bi=bi):
+            return {"external": os.path.join(d, f"external_{tag}{bi}.nc")} if spec.get("external") else {}
+
         # control: the batch alone, mode 'w'
         ctl = os.path.join(d, f"ctl{bi}.nc")
         try:
             step["twin_stage"] = "write"
-            C.write([f.copy() for f in batch], ctl, fmt=fmt, **kw)
+            C.write([f.copy() for f in batch], ctl, fmt=fmt, **kw, **ext_kw("ctl"))
             step["twin_stage"] = "read"
             tw = read_fields(ctl)
             step["twin_stage"] = "done"
@@ -226,7 +238,7 @@ def _scenario(spec, d, emit):
         step = dict(step)
         try:
             C.write([f.copy() for f in batch] if len(batch) > 1 or spec.get("aslist") else batch[0].copy(), fn, fmt=fmt,
-                    mode=spec.get("mode", "a"), **kw)
+                    mode=spec.get("mode", "a"), **kw, **ext_kw("E"))
             step["status"] = "ok"
         except Exception as e:
             step["status"] = "raised:" + fw.exc_enum(e)
@@ -234,7 +246,18 @@ def _scenario(spec, d, emit):
         step["sha_same"] = sha_file(fn) == sha0
         try:
             step["view1"] = nc_view(fn)
-            step["after"] = read_fields(fn)
+            # second witness for new constructs only (used to clear a fingerprint mismatch, never to raise one):
+            # cfdm's own equality with an appended construct, ignoring the properties the dataset holds as globals
+            old_vars = set(step["view0"]["v"])
+            gprops = list(step["view0"]["g"]) + [k for f in batch for k, v in f.nc_global_attributes().items() if v is not None]
+
+            def mark(g, batch=batch, old_vars=old_vars, gprops=gprops):
+                if g.nc_get_variable(None) in old_vars:
+                    return False
+                return any(type(s_) is type(g) and s_.equals(g, ignore_properties=gprops) and g.equals(s_, ignore_properties=gprops)
+                           for s_ in batch)
+
+            step["after"] = read_fields(fn, mark)
         except Exception as e:
             step["view1"] = None
             step["after"] = None
